@@ -274,6 +274,66 @@ var parseHists = []parseHist{
 	}},
 }
 
+// parseCoreHists: the histories above take part in the full product. The "long" histories
+// appended below leave an earlier text of 20..47 runes behind (successful, rejected, abandoned):
+// long enough to fill and wrap the lexer's 20-rune look-back ring, with a letter or a closing
+// bracket -- runes that may NOT precede a signed number -- at every position from 17 on, so that
+// whatever slot a stale look-back lands in holds a rune that changes the reading of a following
+// text whose FIRST rune is a sign or another character decided by looking back.
+const parseCoreHists = 12
+
+var parseLongLens = []int{20, 21, 22, 39, 40, 41, 47}
+
+func init() {
+	if len(parseHists) != parseCoreHists {
+		panic("parseCoreHists out of date")
+	}
+	mk := func(name, hl, text string) {
+		parseHists = append(parseHists, parseHist{name: name, hl: hl,
+			run: func(p *zygo.Parser) { parseLoadText(p, parseLoadRAN, text) }})
+	}
+	mk("ok-greet", ")", `(def greeting "hello, world")`)
+	for _, n := range parseLongLens {
+		mk(fmt.Sprintf("ok-long%d", n), ")", "("+strings.Repeat("a", n-2)+")")
+		mk(fmt.Sprintf("err-long%d", n), ")", "("+strings.Repeat("a", n-3)+"))")
+		mk(fmt.Sprintf("aband-long%d", n), "a", "("+strings.Repeat("a", n-1))
+	}
+}
+
+// parseLookBehindFirst: classes whose reading as the first character of a text is decided by
+// looking at the preceding character (sign rule, two-character operators, comments, := ...).
+func parseLookBehindFirst(c string) bool {
+	switch c {
+	case "-", "*", "/", ":", ".", "+", "op":
+		return true
+	}
+	return false
+}
+
+// parseLongRuns: the text whole after long histories (all of them, or three lengths chosen by
+// the case index: successful, rejected and abandoned each), and cut behind its first character.
+func parseLongRuns(n int, idx int, all bool) []parseRun {
+	var runs []parseRun
+	add := func(hi int) {
+		runs = append(runs, parseRun{hist: hi, load: (hi + idx) % 2})
+		if n > 1 && (all || hi%3 == idx%3) {
+			runs = append(runs, parseRun{hist: hi, load: (hi + idx + 1) % 2, cuts: []int{1}})
+		}
+	}
+	if all {
+		for hi := parseCoreHists; hi < len(parseHists); hi++ {
+			add(hi)
+		}
+		return runs
+	}
+	add(parseCoreHists) // ok-greet
+	for k := 0; k < 3; k++ {
+		li := (idx + 2*k) % len(parseLongLens)
+		add(parseCoreHists + 1 + 3*li + k) // k = 0 ok, 1 err, 2 aband
+	}
+	return runs
+}
+
 func parseHistIndex(name string) int {
 	for i, h := range parseHists {
 		if h.name == name {
@@ -468,7 +528,7 @@ func parseCutSets(n int, pairs bool) [][]int {
 // parseFullRuns: every cut set x every history (the second load mode on a subset).
 func parseFullRuns(n int) []parseRun {
 	var runs []parseRun
-	for hi := range parseHists {
+	for hi := 0; hi < parseCoreHists; hi++ {
 		for _, cs := range parseCutSets(n, true) {
 			runs = append(runs, parseRun{hist: hi, load: parseLoadRAN, cuts: cs})
 		}
@@ -489,7 +549,7 @@ func parseLightRuns(n int, idx int) []parseRun {
 	for _, c := range cs {
 		runs = append(runs, parseRun{hist: 0, load: parseLoadRAN, cuts: c})
 	}
-	for hi := 1; hi < len(parseHists); hi++ {
+	for hi := 1; hi < parseCoreHists; hi++ {
 		runs = append(runs, parseRun{hist: hi, load: parseLoadRAN, cuts: nil})
 		if len(cs) > 1 {
 			runs = append(runs, parseRun{hist: hi, load: parseLoadRAN, cuts: cs[1+(idx+hi)%(len(cs)-1)]})
@@ -659,6 +719,10 @@ var parseSeeds = []string{
 	"(a \"b\\\"c\" 'x' `r\n`) ", "{a: 1 \"k\": 2} ", "[1, 2] ", "(a ;b\n c) ", "a.b:c ", "x := 1e-5 ",
 	"(defn hel[] \"gr(((\") ", "// c\n(a) ", "(a /* c */ b) ", "{a = `\n\n`} ", "(x . y) ", "a /", "b:",
 	"(+ 1 2) (* 3 4)\n", "'\\n' ", "(h a: [1 2] b: {c: 3}) ", "$x #y ?z ", "(-> a b) ", "a ** b -- c ",
+	// texts whose first character is read by looking behind it
+	"-7", "-7 ", "+1 ", "- 1 ", "-a ", "-1e-5 ", "+.5 ", "-Inf ", "--x ", "-> a ", "-= 1 ", "/* c */ a ", "// c\n a ",
+	":= 1 ", ": a ", "** 2 ", "*= 2 ", "*/ ", "/= 2 ", ".5 ", ".a ", "<= 1 ", "== 1 ", "!= 1 ", "&& a ", "|| a ",
+	"1e-5 ", "e-5 ", "(-7) ", " -7 ", "\n-7 ",
 }
 
 func parseSeedCases(c *common, w *ndWriter) {
@@ -727,6 +791,11 @@ func parseGen(c *common, w *ndWriter, arg string) {
 			} else {
 				runs = parseLightRuns(len(cls), idx)
 			}
+			if len(cls) <= 2 {
+				runs = append(runs, parseLongRuns(len(cls), idx, true)...)
+			} else if parseLookBehindFirst(cls[0]) {
+				runs = append(runs, parseLongRuns(len(cls), idx, false)...)
+			}
 			for _, r := range runs {
 				b.exec(r)
 			}
@@ -761,8 +830,11 @@ func parseFiles(c *common, w *ndWriter, dir string) {
 			nSingle, nPair, nMulti = 200, 40, 16
 		}
 		b.exec(parseRun{hist: 0})
-		for hi := 1; hi < len(parseHists); hi++ {
+		for hi := 1; hi < parseCoreHists; hi++ {
 			b.exec(parseRun{hist: hi, load: hi % 2})
+		}
+		for k := 0; k < 4; k++ {
+			b.exec(parseRun{hist: parseCoreHists + r.intn(len(parseHists)-parseCoreHists), load: k % 2})
 		}
 		if n >= 2 {
 			if c.thorough() && n <= 400 {
